@@ -224,6 +224,46 @@ def _per_direction_sequences(fi, psyms):
                 out.add(st.targets[0].id)
             if isinstance(v, ast.List) and not v.elts:
                 empties[st.targets[0].id] = st
+    # a reduction over the element axes of the zeroth coefficient that leaves the direction axis in front:
+    # `numpy.count_nonzero(numpy.abs(numpy.diagonal(R_data[0, :P, ...], axis1=1, axis2=2)) > tol, axis=1).tolist()`
+    def dir_leading(e, depth=0):
+        """the expression is an array whose first axis is the direction axis (all P entries)"""
+        if depth > 6:
+            return False
+        if isinstance(e, ast.Name):
+            vals = [s_.value for s_ in walk_no_nested(fi.node) if isinstance(s_, ast.Assign) and len(s_.targets) == 1
+                    and isinstance(s_.targets[0], ast.Name) and s_.targets[0].id == e.id]
+            return len(vals) == 1 and dir_leading(vals[0], depth + 1)
+        if isinstance(e, ast.Subscript) and _dp_name(e.value) is not None:
+            idx = e.slice.elts if isinstance(e.slice, ast.Tuple) else [e.slice]
+            if idx and isinstance(idx[0], ast.Constant) and isinstance(idx[0].value, int):
+                if len(idx) == 1:
+                    return True
+                i1 = idx[1]
+                return _is_full_slice(i1) or (isinstance(i1, ast.Slice) and i1.lower is None and i1.step is None and isinstance(i1.upper, ast.Name) and i1.upper.id in psyms)
+            return False
+        if isinstance(e, ast.Compare) and len(e.ops) == 1:
+            return dir_leading(e.left, depth + 1) and isinstance(e.comparators[0], (ast.Constant, ast.Name))
+        if isinstance(e, ast.Call):
+            d = dotted_name(e.func) or ''
+            if d in ('numpy.abs', 'numpy.absolute') and len(e.args) == 1:
+                return dir_leading(e.args[0], depth + 1)
+            if d == 'numpy.diagonal' and e.args:
+                ax = {k.arg: k.value for k in e.keywords}
+                a1, a2 = ax.get('axis1'), ax.get('axis2')
+                if all(isinstance(a_, ast.Constant) and isinstance(a_.value, int) and a_.value >= 1 for a_ in (a1, a2) if a_ is not None) and a1 is not None and a2 is not None:
+                    return dir_leading(e.args[0], depth + 1)
+        return False
+    for st in walk_no_nested(fi.node):
+        if isinstance(st, ast.Assign) and len(st.targets) == 1 and isinstance(st.targets[0], ast.Name):
+            v = st.value
+            if isinstance(v, ast.Call) and isinstance(v.func, ast.Attribute) and v.func.attr == 'tolist' and not v.args:
+                v = v.func.value
+            if isinstance(v, ast.Call) and (dotted_name(v.func) or '') in ('numpy.count_nonzero', 'numpy.sum', 'numpy.any', 'numpy.all', 'numpy.max', 'numpy.min') and v.args:
+                ax = next((k.value for k in v.keywords if k.arg == 'axis'), v.args[1] if len(v.args) > 1 else None)
+                axes = [ax] if isinstance(ax, ast.Constant) else (list(ax.elts) if isinstance(ax, ast.Tuple) else None)
+                if axes and all(isinstance(a_, ast.Constant) and isinstance(a_.value, int) and a_.value >= 1 for a_ in axes) and dir_leading(v.args[0]):
+                    out.add(st.targets[0].id)
     for lp, var, full in _p_loops(fi, psyms):
         if not full:
             continue
@@ -318,6 +358,26 @@ def rule_paxis(ctx):
         loops = _p_loops(fi, psyms)
         nondp = _non_dp_locals(fi)
         derived = _derived_dp_locals(fi)
+        nz_first, nz_loopvars = set(), set()
+        for st_ in walk_no_nested(fi.node):
+            if isinstance(st_, ast.Assign) and len(st_.targets) == 1 and isinstance(st_.targets[0], ast.Tuple) and st_.targets[0].elts \
+                    and isinstance(st_.targets[0].elts[0], ast.Name) and isinstance(st_.value, ast.Call) \
+                    and (dotted_name(st_.value.func) or '') in ('numpy.nonzero', 'numpy.where') and len(st_.value.args) == 1:
+                nz_first.add(st_.targets[0].elts[0].id)
+        for st_ in walk_no_nested(fi.node):
+            if isinstance(st_, ast.For):
+                it_, tg_ = st_.iter, st_.target
+                if isinstance(it_, ast.Name) and it_.id in nz_first and isinstance(tg_, ast.Name):
+                    nz_loopvars.add(tg_.id)
+                if isinstance(it_, ast.Call) and isinstance(it_.func, ast.Name) and it_.func.id == 'enumerate' and len(it_.args) == 1 \
+                        and isinstance(it_.args[0], ast.Name) and it_.args[0].id in nz_first and isinstance(tg_, ast.Tuple) and len(tg_.elts) == 2 \
+                        and isinstance(tg_.elts[1], ast.Name):
+                    nz_loopvars.add(tg_.elts[1].id)
+                if isinstance(it_, ast.Call) and isinstance(it_.func, ast.Name) and it_.func.id == 'zip' and isinstance(tg_, ast.Tuple) \
+                        and len(it_.args) == len(tg_.elts):
+                    for a_, t_ in zip(it_.args, tg_.elts):
+                        if isinstance(a_, ast.Name) and a_.id in nz_first and isinstance(t_, ast.Name):
+                            nz_loopvars.add(t_.id)
         in_loop = {}
         for lp, var, full in loops:
             if not full:
@@ -383,6 +443,15 @@ def rule_paxis(ctx):
                 continue
             if isinstance(ix, ast.Slice) and not vars_ and fi.name in ('jacobian',):
                 r.ok(construct=None)
+                continue
+            # an index array from numpy.nonzero / where of a per-direction mask (its first result lists the direction of every selected entry),
+            # or a loop variable that runs over such an array: every selected entry is read in its own direction
+            if isinstance(ix, ast.Name) and (ix.id in nz_first or ix.id in nz_loopvars):
+                r.ok(construct=_f(fi) + ':nonzero:' + norm(n), nontrivial=True, sample='%s: `%s` indexes the directions selected by numpy.nonzero' % (fi.qualname, norm(n)[:50]))
+                continue
+            if isinstance(ix, ast.Slice) and isinstance(ix.lower, ast.Name) and ix.lower.id in nz_loopvars and ix.upper is not None \
+                    and norm(ix.upper) in ('%s + 1' % ix.lower.id, '1 + %s' % ix.lower.id):
+                r.ok(construct=_f(fi) + ':nonzero:' + norm(n))
                 continue
             r.bad(Finding('C11.P1', _f(fi), norm(n), '%s: direction axis of `%s` is indexed with `%s`%s - the value of one direction is used '
                           'for another' % (fi.qualname, nm, norm(ix), (' inside the loop over `%s`' % vars_[-1]) if vars_ else ' outside any loop over directions'),
